@@ -36,7 +36,7 @@ Print Assumptions C04_stack_delivers_each_batch_once_without_discipline_refuted.
 Theorem C04_stack_exhausted_ops_never_run_again :
   forall n s h,
   reach n s h ->
-  forall post i pre e, h = post ++ EvExec i (ROk XExhausted) :: pre -> In e post -> i < ev_op e.
+  forall post i pre j a, h = post ++ EvExec i (ROk XExhausted) :: pre -> In (EvExec j a) post -> i < j.
 Proof. exact stack_exhausted_ops_never_run_again. Qed.
 Print Assumptions C04_stack_exhausted_ops_never_run_again.
 
@@ -47,9 +47,37 @@ Theorem C04_stack_finalize_once_in_order :
      h = post ++ EvFin k b :: mid ++ EvFin j a :: pre -> fin_completes a = true -> j < k) /\
   (forall post j a pre,
      h = post ++ EvFin j a :: pre ->
-     1 <= j /\ (In (EvExec (j - 1) (ROk XExhausted)) pre \/ In (EvFin (j - 1) (ROk FFinalized)) pre)).
+     1 <= j /\ (In (EvExec (j - 1) (ROk XExhausted)) pre \/ In (EvFin (j - 1) (ROk FFinalized)) pre \/
+                exists k, j < k /\ In (EvExec k (ROk XExhausted)) pre)).
 Proof. exact stack_finalize_once_in_order. Qed.
 Print Assumptions C04_stack_finalize_once_in_order.
+
+Theorem C04_stack_exhausted_finalizes_all_upstream :
+  forall n s h,
+  reachD n s h ->
+  (forall j, 1 <= j < ntf s -> fin_done h j = true \/ exhausted h j = true) /\
+  (forall k, In (EvExec k (ROk XExhausted)) h -> k <> n - 1 ->
+     forall j, ntf s <= j < k -> In (IAbandon j) (instrs s)) /\
+  (instrs s = [] -> forall k j, In (EvExec k (ROk XExhausted)) h -> k <> n - 1 -> 1 <= j < k ->
+     fin_done h j = true \/ exhausted h j = true).
+Proof. exact stack_exhausted_finalizes_all_upstream. Qed.
+Print Assumptions C04_stack_exhausted_finalizes_all_upstream.
+
+Theorem C04_stack_exhausted_op_itself_finalized_only_by_later_exhaust :
+  (exists script s h p, run_h (mk 5) [] script = (s, h) /\ ctl s p = Finished /\ cl s p = CFin 4 /\
+     exhausted h 2 = true /\ exhausted h 3 = true /\
+     fin_done h 1 = true /\ fin_done h 2 = true /\ fin_done h 3 = false) /\
+  (exists script s h p, run_h (mk 5) [] script = (s, h) /\ ctl s p = Finished /\ cl s p = CFin 4 /\
+     exhausted h 2 = true /\ exhausted h 3 = false /\
+     fin_done h 1 = true /\ fin_done h 2 = false /\ fin_done h 3 = true).
+Proof. exact stack_exhausted_op_itself_finalized_only_by_later_exhaust. Qed.
+Print Assumptions C04_stack_exhausted_op_itself_finalized_only_by_later_exhaust.
+
+Theorem C04_no_error_step_ok :
+  forall s p,
+  (forall e, ctl s p <> Error e) -> ab_step_ok s p = true.
+Proof. exact no_error_step_ok. Qed.
+Print Assumptions C04_no_error_step_ok.
 
 Theorem C04_stack_terminates :
   forall n s h p,
@@ -317,29 +345,42 @@ Theorem C04_stream_progress_measure_decreases :
 Proof. exact stream_progress_measure_decreases. Qed.
 Print Assumptions C04_stream_progress_measure_decreases.
 
+
 (* ---- proofs/BarrierHJProofs.v ---- *)
 Theorem C04_hj_inv_parked_implies_flag_unset :
-  forall n s,
-  hreach false n s ->
+  forall ab n s,
+  hreach ab false n s ->
   (0 < count is_hpscan (hps s) -> sready s = false) /\
   (0 < count is_hpdrain (hps s) -> dready s = false).
 Proof. exact hj_inv_parked_implies_flag_unset. Qed.
 Print Assumptions C04_hj_inv_parked_implies_flag_unset.
 
 Theorem C04_hj_no_error_path :
-  forall n s,
-  hreach false n s -> count is_herr (hps s) = 0.
+  forall ab n s,
+  hreach ab false n s -> count is_herr (hps s) = 0.
 Proof. exact hj_no_error_path. Qed.
 Print Assumptions C04_hj_no_error_path.
 
+Theorem C04_hj_no_deadlock_with_limit :
+  forall ab n s,
+  hreach ab false n s -> ~ hall_done s -> exists s', hstep ab false s s' /\ s' <> s.
+Proof. exact hj_no_deadlock_with_limit. Qed.
+Print Assumptions C04_hj_no_deadlock_with_limit.
+
+Theorem C04_hj_no_deadlock_nested_limit :
+  forall n s,
+  hreach true false n s -> ~ hall_done s -> exists s', hstep true false s s' /\ s' <> s.
+Proof. exact hj_no_deadlock_nested_limit. Qed.
+Print Assumptions C04_hj_no_deadlock_nested_limit.
+
 Theorem C04_hj_no_deadlock :
   forall n s,
-  hreach false n s -> ~ hall_done s -> exists s', hstep false s s' /\ s' <> s.
+  hreach false false n s -> ~ hall_done s -> exists s', hstep false false s s' /\ s' <> s.
 Proof. exact hj_no_deadlock. Qed.
 Print Assumptions C04_hj_no_deadlock.
 
-Theorem C04_hj_drain_deadlock_with_limit_refuted :
-  hreach true 2 hj_deadlock_state /\ ~ hall_done hj_deadlock_state /\
-  forall s', hstep true hj_deadlock_state s' -> s' = hj_deadlock_state.
-Proof. exact hj_drain_deadlock_with_limit_refuted. Qed.
-Print Assumptions C04_hj_drain_deadlock_with_limit_refuted.
+Theorem C04_hj_drain_deadlock_when_abandon_lost_refuted :
+  hreach true true 2 hj_deadlock_state /\ ~ hall_done hj_deadlock_state /\
+  forall s', hstep true true hj_deadlock_state s' -> s' = hj_deadlock_state.
+Proof. exact hj_drain_deadlock_when_abandon_lost_refuted. Qed.
+Print Assumptions C04_hj_drain_deadlock_when_abandon_lost_refuted.
